@@ -26,6 +26,7 @@ func (t *Throttle) Add(cb func()) {
 	t.mu.Lock()
 
 	if t.running >= t.limit {
+		verifCount("throttle.queued")
 		t.queue = append(t.queue, cb)
 		t.mu.Unlock()
 		return
@@ -58,5 +59,6 @@ func (t *Throttle) Done() {
 	cb := t.queue[0]
 	t.queue = t.queue[1:]
 	t.mu.Unlock()
+	cb = verifWrapGo(cb)
 	go cb()
 }
